@@ -125,6 +125,15 @@ class NoOffset(datetime.tzinfo):
         return 'NoOffset()'
 
 
+class SubDatetime(datetime.datetime):
+    """A datetime subclass as date / time libraries define them."""
+
+    def __repr__(self):
+        return 'SubDatetime(%s)' % self.isoformat()
+
+    __str__ = __repr__
+
+
 def build_inputs(seed, n):
     """The shared input list; identical in every configuration."""
     import zoneinfo
@@ -154,6 +163,17 @@ def build_inputs(seed, n):
         off = rnd.choice([-720, -570, -300, 0, 60, 330, 345, 765, 840])
         out.append(('aware-fixed', base.astimezone(datetime.timezone(
             datetime.timedelta(minutes=off)))))
+        if len(out) % 4 == 0:
+            # what pendulum / arrow-like libraries, pandas and freezegun hand
+            # out: an instance of a SUBCLASS of datetime (aware, naive)
+            d_ = base.astimezone(datetime.timezone(
+                datetime.timedelta(minutes=off)))
+            out.append(('aware-subclass', SubDatetime(
+                d_.year, d_.month, d_.day, d_.hour, d_.minute, d_.second,
+                d_.microsecond, tzinfo=d_.tzinfo)))
+            out.append(('naive-subclass', SubDatetime(
+                base.year, base.month, base.day, base.hour, base.minute,
+                base.second, base.microsecond)))
         # naive wall-clock fields of some zone's local time
         loc = base.astimezone(zobjs[zn]).replace(tzinfo=None)
         out.append(('naive-local-fields:' + zn, loc))
@@ -348,6 +368,39 @@ def _one(i, kind, v, rec, tz, log, nonzero=True):
                               tz, v, u.value[2].properties.timestamp
                               if u.ok else u.describe()), case)
             return
+        # the timestamp beside the other things a message carries: header
+        # fields whose names and values look like times (names the tree
+        # under test mentions first), other properties, a body size
+        if i % 3 == 0:
+            from ..gen import magic
+            mp = magic.pool()
+            names = ['timestamp_in_ms', 'timestamp', 'x-timestamp', 'time',
+                     'x-death', 'x-first-death-time', 'expiration', 'date',
+                     'x-delay', 'created_at'] + [x[:128] for x in
+                                                 mp.novel_strs[:40]]
+            hdrs = {}
+            for k_ in range(1 + i % 3):
+                nm = names[(i // 3 + k_ * 7) % len(names)]
+                hdrs[nm] = [secs * 1000 + 123, secs, secs + 3600, 0,
+                            float(secs), str(secs), exp_dt,
+                            {'time': exp_dt, 'count': 1},
+                            2**40 + i][(i // 3 + k_) % 9]
+            p2 = call(commands.Basic.Properties, timestamp=v, headers=hdrs,
+                      expiration=str(secs % 100000), message_id='m%d' % i)
+            m2 = common.lib_marshal(header.ContentHeader(0, secs, p2.value),
+                                    i % 65536) if p2.ok else p2
+            u2 = common.lib_unmarshal(m2.value) if m2.ok else m2
+            if u2.ok:
+                rec.count('timestamps_beside_header_fields')
+            if not u2.ok or not _utc_aware_equal(
+                    u2.value[2].properties.timestamp, exp_dt):
+                rec.violation('property-instant-beside-headers:%s' % fam,
+                              'TZ=%s: timestamp property %r sent with '
+                              'headers %r comes back as %s' % (
+                                  tz, v, sorted(hdrs),
+                                  u2.value[2].properties.timestamp
+                                  if u2.ok else u2.describe()), case)
+                return
     # a peer that sends epoch milliseconds (wire value > 0xFFFFFFFF)
     ms = secs * 1000 + (i * 37) % 1000
     if ms > 0xFFFFFFFF:
@@ -432,7 +485,8 @@ def gates(m, tier):
               'naive-utc-fields', 'struct_time', 'struct_time-local-fields',
               'naive-gap-or-fold', 'struct_time-from-localtime',
               'tzinfo-without-offset', 'struct_time-hour-24+',
-              'aware-fold-pair', 'aware-odd-offset',
+              'aware-fold-pair', 'aware-odd-offset', 'aware-subclass',
+              'naive-subclass',
               'struct_time-sec-61+'):
         if k not in m.sets.get('input_kinds', ()):
             out.append('input kind %s never exercised' % k)
